@@ -927,6 +927,14 @@ func Run(c *common.Ctx) error {
 			return fmt.Errorf("%s/empty-then-write: %w", kind, err)
 		}
 	}
+	if err := strayDirectory(c, cf, c.Rng.Fork()); err != nil {
+		return fmt.Errorf("file/stray-directory: %w", err)
+	}
+	for _, kind := range []string{"file", "lfsc"} {
+		if err := emptyIdle(c, cf, c.Rng.Fork(), kind); err != nil {
+			return fmt.Errorf("%s/empty-idle: %w", kind, err)
+		}
+	}
 	return nil
 }
 
@@ -1017,6 +1025,112 @@ func recreatedOtherPageSize(c *common.Ctx, r *common.Rand, kind string, syncBetw
 		c.Violate(key+":restore-position", fmt.Sprintf("restored position (%d,%016x), primary (%d,%016x)", rp.txid, rp.chk, p.pos().txid, p.pos().chk), rep)
 	} else if eq, why := img.Equal(want); !eq {
 		c.Violate(key+":restore-image", "the restored database is not the primary's: "+why, rep)
+	}
+	return nil
+}
+
+// emptyIdle: a node with an empty data directory becomes primary while the service already holds the database; the
+// application opens the database file (an empty database at position zero appears) and writes nothing. The service is
+// ahead: syncs on the idle primary adopt its copy.
+func emptyIdle(c *common.Ctx, cf *common.CaseFile, r *common.Rand, kind string) error {
+	dir, err := os.MkdirTemp(c.OutDir, "c14i-")
+	if err != nil {
+		return err
+	}
+	defer os.RemoveAll(dir)
+	e := &env{c: c, r: r, kind: kind, svcDir: filepath.Join(dir, "svc")}
+	_ = os.MkdirAll(e.svcDir, 0o755)
+	e.fc = litefs.NewFileBackupClient(e.svcDir)
+	_ = e.fc.Open()
+	if kind == "lfsc" {
+		cl, err := newCloud(e.svcDir)
+		if err != nil {
+			return err
+		}
+		e.cloud = cl
+		defer cl.srv.Close()
+	}
+	p1, err := e.newPrimary(filepath.Join(dir, "p1"))
+	if err != nil {
+		return err
+	}
+	if err := p1.commit(2); err != nil {
+		p1.node.Close()
+		return err
+	}
+	if err := p1.node.Store.SyncBackup(bg); err != nil {
+		p1.node.Close()
+		return fmt.Errorf("first primary's sync: %v", err)
+	}
+	want, _ := lfs.ReadImage(filepath.Join(p1.dir, "dbs", "db"))
+	p1.node.Close()
+	sp := e.svcPos()
+	p2, err := e.newPrimary(filepath.Join(dir, "p2"))
+	if err != nil {
+		return err
+	}
+	defer p2.node.Close()
+	if _, f, err := p2.node.Store.CreateDB("db"); err == nil {
+		_ = f.Close()
+	}
+	var errs []string
+	for i := 0; i < 3; i++ {
+		e.syncOnce(p2, cf, "empty-idle", fmt.Sprintf("sync %d of the idle primary", i+1), map[posT]bool{sp: true})
+	}
+	c.Evaluations++
+	c.Distinct(kind + ":empty-idle")
+	rep := map[string]any{"kind": "backup-empty-idle", "client": kind, "sync_errors": errs}
+	lp, sv := p2.pos(), e.svcPos()
+	if sv != sp {
+		c.Violate("C14:"+kind+":empty-idle:service", fmt.Sprintf("the service went from %v to %v although the primary never wrote", sp, sv), rep)
+		return nil
+	}
+	if lp != sp {
+		c.Violate("C14:"+kind+":empty-idle:not-adopted", fmt.Sprintf("the service holds the database at %v, the primary an empty one at %v: three syncs on the idle primary (errors: %v) did not adopt the service's copy", sp, lp, errs), rep)
+		return nil
+	}
+	if got, _ := lfs.ReadImage(filepath.Join(p2.dir, "dbs", "db")); got == nil || want == nil {
+		return fmt.Errorf("cannot read images")
+	} else if ok, why := got.Equal(want); !ok {
+		c.Violate("C14:"+kind+":empty-idle:image", "the adopted database differs from the one the service was given: "+why, rep)
+	}
+	return nil
+}
+
+// strayDirectory: the directory of the file-based backup holds a sub-directory with no transaction file in it
+// (lost+found on a mounted volume; what a failed first upload leaves behind). It is no database of the service: syncs
+// succeed and bring the service to the primary's position.
+func strayDirectory(c *common.Ctx, cf *common.CaseFile, r *common.Rand) error {
+	dir, err := os.MkdirTemp(c.OutDir, "c14s-")
+	if err != nil {
+		return err
+	}
+	defer os.RemoveAll(dir)
+	e := &env{c: c, r: r, kind: "file", svcDir: filepath.Join(dir, "svc")}
+	_ = os.MkdirAll(filepath.Join(e.svcDir, "lost+found"), 0o755)
+	e.fc = litefs.NewFileBackupClient(e.svcDir)
+	_ = e.fc.Open()
+	p, err := e.newPrimary(filepath.Join(dir, "p"))
+	if err != nil {
+		return err
+	}
+	defer p.node.Close()
+	if err := p.commit(2); err != nil {
+		return err
+	}
+	var errs []string
+	for i := 0; i < 3; i++ {
+		if err := p.node.Store.SyncBackup(bg); err != nil {
+			errs = append(errs, err.Error())
+		}
+	}
+	c.Evaluations++
+	c.Distinct("file:stray-directory")
+	rep := map[string]any{"kind": "backup-stray-directory", "sync_errors": errs}
+	m, _ := e.fc.PosMap(bg)
+	sv := posT{uint64(m["db"].TXID), uint64(m["db"].PostApplyChecksum)}
+	if lp := p.pos(); len(errs) > 0 || sv != lp {
+		c.Violate("C14:file:stray-directory", fmt.Sprintf("the backup directory holds an empty sub-directory (lost+found) next to the databases: three syncs of an idle primary at %v leave the service at %v (errors: %v)", lp, sv, errs), rep)
 	}
 	return nil
 }
